@@ -4,6 +4,10 @@ import json, os
 ROOT = os.path.dirname(os.path.dirname(os.path.abspath(__file__)))
 
 CHECKS = {
+ 'C17': dict(level='exploration', design='DESIGN.md §5 C17',
+   technique='CrossHair symbolic execution of the real include machinery over virtual file systems, differential against the reference machine with an independently written resolver; symbolic base kind, system prefix and per-file state; url_file_relative on symbolic strings',
+   text='Per include-tree program (chain with sub-directory, ../ and return inside an include; adjacent includes merged into one statement across directories; include inside a function; system, absolute-URL and absolute-path includes) the real interpreter is run with fetchFn/urlFn/systemPrefix set up as the CLI does and compared with the reference machine: sequence of fetched URLs, effect trace, final globals, exception type and message, for every base kind and every choice of a missing / throwing / syntactically broken file. url_file_relative itself is compared with the resolver specification on symbolic path fragments for URL bases.',
+   note='Trusted: vf/hlib/refvm.py + spec_resolve, CrossHair/z3. pathlib normalisation of absolute references is outside the claim.'),
  'C04': dict(level='exploration', design='DESIGN.md §5 C04',
    technique='CrossHair symbolic execution of execute_script/_script_function: symbolic argument lists (symbolic length), host globals chosen by symbolic indices, symbolic presence flags for colliding names; oracle = the documented calling and scoping convention',
    text='Per parameter layout (0-3 parameters, with and without a trailing "...") the real _script_function is called - directly, through systemPartial and through a script call - with an argument list whose length and values are symbolic, and compared with positional binding / missing->null / surplus ignored / rest collected, also when the host supplies globals named like the parameters. Per scoping program (one parameter, zero parameters, nested calls, arraySort callback) assignments inside functions must stay local, reads must see locals then globals, top-level assignments must write the caller-supplied dict; a collision condition covers library injection, script functions replacing library/host functions and bound names beating built-ins.',
